@@ -3,6 +3,7 @@ package main
 // Evaluation of contract expressions to SMT terms in a symbolic state.
 
 import (
+	"os"
 	"fmt"
 	"go/constant"
 	"go/token"
@@ -627,6 +628,13 @@ func (g *Gen) evalIdent(x *CExpr, env *Env) (Val, error) {
 	if env.pkg != nil {
 		if v, ok := g.pkgObject(env.pkg, name, env); ok {
 			return v, nil
+		}
+	}
+	if os.Getenv("GOVC_DEBUG") != "" {
+		o, ok := g.lookupSrc(env, name)
+		fmt.Fprintf(os.Stderr, "evalIdent %s failed: useSrc=%v st=%v pos=%v lookupSrc=(%v,%v)\n", name, env.useSrc, env.st != nil, g.prog.Fset.Position(env.pos), o, ok)
+		if ok {
+			fmt.Fprintf(os.Stderr, "   src=%+v addr=%v\n", env.st.src[o], env.st.srcAddr[o])
 		}
 	}
 	return Val{}, fmt.Errorf("unknown identifier %s", name)
@@ -1267,6 +1275,9 @@ func (g *Gen) lookupSrc(env *Env, name string) (types.Object, bool) {
 						return o, true
 					}
 					if _, isVar := o.(*types.Var); isVar && o.Parent() != p.Scope() {
+						if os.Getenv("GOVC_DEBUG") != "" {
+							fmt.Fprintf(os.Stderr, "lookupSrc %s at %v: object %v at %v has no value on this path (src has %d)\n", name, g.prog.Fset.Position(env.pos), o, g.prog.Fset.Position(o.Pos()), len(env.st.src))
+						}
 						return nil, false // in scope but no value known on this path
 					}
 				}
